@@ -268,7 +268,7 @@ struct C13 : Profile {
         if (nl != std::string::npos) { std::string t2 = text; t2.insert(nl + 1, r.chance(0.5) ? "\n" : "\n\n"); RefLexResult l2 = reflex(t2); bool same = l2.tokens.size() == lx.tokens.size(); for (size_t i = 0; same && i < l2.tokens.size(); ++i) same = l2.tokens[i].text == lx.tokens[i].text && l2.tokens[i].code == lx.tokens[i].code; if (same) { text = t2; plan["text"] = enc(text); } } }
       int ask = t == "string" ? (int)r.pick(std::vector<long>{0, 0, 1, 2, 3, 7, 64}) : 0;
       if (crlf) { std::string c; for (char ch : text) { if (ch == '\n') c += "\r\n"; else c.push_back(ch); } plan["text"] = enc(c); plan["lf_text"] = enc(text); }
-      plan["reader"] = json{{"type", t}, {"crlf", crlf}, {"ask", ask}};
+      plan["reader"] = json{{"type", t}, {"crlf", crlf}, {"ask", ask}, {"pipe", t == "file" && r.chance(0.4)}};
       return plan;
     }
     size_t len = text.size();
@@ -298,6 +298,9 @@ struct C13 : Profile {
 
     auto make_file = [&](Capture& c) { if (write(c.fd(), text.data(), text.size()) < 0) {} lseek(c.fd(), 0, SEEK_SET); };
     std::vector<size_t> cuts;
+    // the program file as a regular (seekable) file or, as `cat prog | bloc -` delivers it, through a pipe
+    const bool through_pipe = rd.value("pipe", false) && text.size() < 60000;
+    auto open_source = [&](Capture& c) -> FILE* { if (!through_pipe) { make_file(c); return fdopen(dup(c.fd()), "r"); } int pp[2]; if (pipe(pp) != 0) return nullptr; if (write(pp[1], text.data(), text.size()) < 0) {} close(pp[1]); ++res.probes["program_file_through_a_pipe"]; return fdopen(pp[0], "r"); };
     // ---- token stream under the planned delivery
     std::vector<Tok> toks;
     if (rtype == "sim") {
@@ -306,7 +309,7 @@ struct C13 : Profile {
     } else if (rtype == "string") {
       bloc::StringReader sr0(text); SmallAsk sr(sr0, rd.value("ask", 0)); toks = lex_impl(sr); if (rd.value("ask", 0) > 0) ++res.probes["string_reader_asked_in_small_pieces"];
     } else {
-      Capture c; make_file(c); FILE* f = fdopen(dup(c.fd()), "r"); ReadFile rf(f); toks = lex_impl(rf); fclose(f);
+      Capture c; FILE* f = rtype == "file" ? open_source(c) : (make_file(c), fdopen(dup(c.fd()), "r")); ReadFile rf(f); toks = lex_impl(rf); fclose(f);
     }
     for (auto& t : toks) ev.add(tokstr(t));
     { std::string c = "cuts:"; for (size_t o : cuts) c += std::to_string(o) + ","; ev.add(c); ev.add(rtype); }
@@ -337,7 +340,7 @@ struct C13 : Profile {
       ProgOut a, b;
       if (rtype == "sim") { SimReader sr(text, rd.value("chunks", std::vector<int>()), rd.value("tail", 0), rd.value("line", false)); a = run_program(sr); }
       else if (rtype == "string") { bloc::StringReader sr0(text); SmallAsk sr(sr0, rd.value("ask", 0)); a = run_program(sr); }
-      else if (rtype == "file") { Capture c; make_file(c); FILE* f = fdopen(dup(c.fd()), "r"); ReadFile rf(f); a = run_program(rf); fclose(f); }
+      else if (rtype == "file") { Capture c; FILE* f = open_source(c); ReadFile rf(f); a = run_program(rf); fclose(f); }
       else { // include "<memfd path>" in a trusted context
         Capture c; make_file(c); Capture out; std::string src = "include \"/proc/self/fd/" + std::to_string(c.fd()) + "\";\n";
         { bloc::Context ctx(out.fd(), out.fd()); ctx.trusted(true); bloc::StringReader sr(src); bloc::Executable* exe = nullptr;
